@@ -39,6 +39,7 @@ FINDER_BOUNDS = {
     'find_relative_offsets': 'every selection x every container over 9 positions x 4 offset modes; every cursor pair against every container',
     'find_subselectors': 'every sequence of 2-3 of 10 simple targets (7 text selections of two resources, 3 annotations) x Multi/Composite/Directional',
     'find_text_ops': 'every sub-range of 6 texts (<= 8 codepoints of 1-4 bytes), 7 needles/delimiters, 3 trim sets; find_text, find_text_nocase, split_text, trim_text vs plain string operations',
+    'find_query_semantics': '9 constraints over a 12-annotation store: every ordered pair as a conjunction, every pair as a disjunction, LIMIT 1-3; oracle: the single-constraint results',
     'find_index_walk': 'every range over a 9-character text, forward and backward, 11 known selections',
 }
 
@@ -183,6 +184,12 @@ def decide(prop, tier='quick', rlimit=None):
                 b = dict(harness=name, kind='exhaustive small-input enumeration through the real code (replay/finder.rs)', bound=FINDER_BOUNDS.get(name, 'see replay/finder.rs'),
                          status='failing input found' if res['found'] else ('passed' if res['completed'] else 'undetermined'), cmd=res['cmd'])
                 bounded.append(b)
+                for key in res.get('known', []):
+                    kf = known_for.get(f"{name}: {key}")
+                    if kf is not None:
+                        known_hits.append((kf, dict(fn=name, clause=kf['clause'], cid=kf['clause'])))
+                    else:   # the finder only prints KNOWN for keys it read from the file; anything else is a new failing input
+                        violations.append(dict(fn=name, clause=None, msg='failing input not listed in known_findings.txt', src=None, rendered=key, props=[prop], file='replay/finder.rs', line=0, cid=f"{name}/bounded-dynamic[{key}]", unit='finder', kind='contract'))
                 if res['found']:
                     violations.append(dict(fn=name, clause=None, msg='a failing input was found by running the real code', src=None, rendered=json.dumps(res.get('input')),
                                            props=[prop], file='replay/finder.rs', line=0, cid=f"{name}/bounded-dynamic", unit='finder', kind='contract'))
